@@ -1,6 +1,6 @@
 """C07 -- channel data arrives complete, in order, once, with EOF last."""
 
-from . import chanload, c07_tuntap
+from . import chanload, c07_tuntap, c07_codecs
 
 ID = 'C07'
 NAME = 'channel_data'
@@ -19,7 +19,12 @@ RULE = ('Each run: seeded plan of 1-4 concurrent channels (session/direct-'
         'population (12% of the runs): one tun@openssh.com channel in layer '
         '2 or layer 3 mode, both sides writing drawn packets, callback or '
         'stream reader with pauses: the packets delivered must be the '
-        'packets written, one for one. Non-trivial = at '
+        'packets written, one for one. A third one (8%): a text session '
+        'whose encoding is drawn from utf-16 / utf-32 / utf-8-sig (a byte '
+        'order mark starts each stream) and their mark-less forms, texts '
+        'with 2- and 4-byte characters and U+FEFF as first character, on '
+        'stdin, stdout and stderr with small windows and packets: each '
+        'stream delivers the characters written to it. Non-trivial = at '
         'least one non-empty write was delivered; distinct = distinct '
         '(plan, schedule decisions, trace) signature.')
 
@@ -39,7 +44,8 @@ STUB = ['event loop + clock', 'TCP sockets/listener', 'DNS', 'executor',
 PROBES = ['reader_paused', 'short_reads', 'text_split_char', 'window_small',
           'multi_channel', 'stderr_data', 'eof_sent', 'closed_behind_eof',
           'stream_cut_in_character', 'pop_tuntap',
-          'tunnel_packets_delivered']
+          'tunnel_packets_delivered', 'pop_codecs', 'text_starts_with_feff',
+          'two_text_streams']
 
 
 def gen_plan(rng):
@@ -48,6 +54,11 @@ def gen_plan(rng):
         # transfer is a packet (checks/c07_tuntap.py)
         return c07_tuntap.gen_plan(rng)
 
+    if rng.chance(8):
+        # a third one: text channels whose encoding starts each stream with
+        # a byte order mark (checks/c07_codecs.py)
+        return c07_codecs.gen_plan(rng)
+
     return chanload.gen_plan(rng)
 
 
@@ -55,12 +66,18 @@ def valid_plan(plan):
     if plan.get('pop') == 'tuntap':
         return c07_tuntap.valid_plan(plan)
 
+    if plan.get('pop') == 'codecs':
+        return c07_codecs.valid_plan(plan)
+
     return chanload.valid_plan(plan)
 
 
 def run_plan(plan, sched_seed=None, sched_replay=None):
     if plan.get('pop') == 'tuntap':
         return c07_tuntap.run_plan(plan, sched_seed, sched_replay)
+
+    if plan.get('pop') == 'codecs':
+        return c07_codecs.run_plan(plan, sched_seed, sched_replay)
 
     def between(world, run):
         if world.sim.loop.capped:
